@@ -29,6 +29,9 @@ func staticCallersOf(fn *ssa.Function) []ssa.CallInstruction {
 					}
 					if g := staticCallee(ci.Common()); g != nil {
 						idx[g] = append(idx[g], ci)
+						if o := origin(g); o != g && g.Synthetic != "" {
+							idx[o] = append(idx[o], ci) // call through an instantiation wrapper
+						}
 					}
 				}
 			}
